@@ -12,6 +12,9 @@
 //! On systems without explicit NUMA support, workers are assigned to virtual
 //! nodes based on their ID, approximating locality through ID proximity.
 
+#[cfg(grafeo_verif)]
+use grafeo_common::verif::fake_std as std;
+
 use super::morsel::Morsel;
 use crossbeam::deque::{Injector, Steal, Stealer, Worker};
 use parking_lot::Mutex;
